@@ -85,20 +85,20 @@ type Msg struct {
 
 // UERecord is what the peer derived / assigned for one UE.
 type UERecord struct {
-	Index     int      `json:"index"`
-	Supi      string   `json:"supi"`
-	RanUeID   int64    `json:"ran_ue_ngap_id"`
-	Choice    UEChoice `json:"choice"`
-	AUTN      string   `json:"autn"`
-	XRESstar  string   `json:"xres_star"`
-	Kamf      string   `json:"kamf"`
-	KnasInt   string   `json:"knas_int"`
-	PSI       int      `json:"psi"`
-	PTI       int      `json:"pti"`
-	DLCount   uint32   `json:"dl_count"`
-	Sessions  int      `json:"sessions_set_up"`
-	vec       *Vector
-	ueSecCap  []byte
+	Index    int      `json:"index"`
+	Supi     string   `json:"supi"`
+	RanUeID  int64    `json:"ran_ue_ngap_id"`
+	Choice   UEChoice `json:"choice"`
+	AUTN     string   `json:"autn"`
+	XRESstar string   `json:"xres_star"`
+	Kamf     string   `json:"kamf"`
+	KnasInt  string   `json:"knas_int"`
+	PSI      int      `json:"psi"`
+	PTI      int      `json:"pti"`
+	DLCount  uint32   `json:"dl_count"`
+	Sessions int      `json:"sessions_set_up"`
+	vec      *Vector
+	ueSecCap []byte
 }
 
 type Transcript struct {
@@ -110,8 +110,8 @@ type Transcript struct {
 	Exit         int         `json:"exit"` // exit status; -1 = killed by the peer (hang), 128+n = signal n
 	TimedOut     bool        `json:"timed_out"`
 	WallMs       int64       `json:"wall_ms"`
-	FaultAtMs    int64       `json:"fault_at_ms"`   // -1 = no fault injected
-	AfterFaultMs int64       `json:"after_fault_ms"` // exit time - fault time (or - last message time when no fault was injected)
+	FaultAtMs    int64       `json:"fault_at_ms"`    // -1 = no fault injected
+	AfterFaultMs int64       `json:"after_fault_ms"` // exit time - time of the last event on the association (message or fault)
 	Stdout       []string    `json:"stdout"`
 	Stderr       string      `json:"stderr"`
 	UL           int         `json:"ul_count"`
@@ -119,6 +119,7 @@ type Transcript struct {
 	AfterFaultUL int         `json:"after_fault_ul"`
 	Banner       bool        `json:"banner"`
 	ErrorLine    bool        `json:"error_line"`
+	ErrorText    string      `json:"error_text"` // the ManageError message (text before ": <error>") of the first Error line
 	Tests        int         `json:"test_headers"`
 	PeerError    string      `json:"peer_error,omitempty"`
 }
@@ -195,20 +196,20 @@ var gsmNames = map[uint8]string{
 
 // ulInfo is what the peer extracts from one uplink message.
 type ulInfo struct {
-	ngap      string
-	ranID     int64
-	hasRan    bool
-	amfID     int64
-	nasPdu    []byte
-	nasType   uint8 // 5GMM message type of the (inner) plain message
-	sht       uint8
-	sqn       int
-	mac       []byte
-	plain     []byte // the plain 5GMM message
-	gsmType   uint8  // 5GSM message type inside UL NAS TRANSPORT
-	psi, pti  uint8
-	plmn      []byte
-	msg       *nas.Message
+	ngap     string
+	ranID    int64
+	hasRan   bool
+	amfID    int64
+	nasPdu   []byte
+	nasType  uint8 // 5GMM message type of the (inner) plain message
+	sht      uint8
+	sqn      int
+	mac      []byte
+	plain    []byte // the plain 5GMM message
+	gsmType  uint8  // 5GSM message type inside UL NAS TRANSPORT
+	psi, pti uint8
+	plmn     []byte
+	msg      *nas.Message
 }
 
 func parseUL(b []byte) (*ulInfo, error) {
@@ -699,9 +700,9 @@ loop:
 			return t, waitErr
 		}
 	}
-	ref := t.FaultAtMs
-	if ref < 0 {
-		ref = lastEvent
+	ref := lastEvent
+	if t.FaultAtMs > ref {
+		ref = t.FaultAtMs
 	}
 	t.AfterFaultMs = t.WallMs - ref
 	outF.Close()
@@ -714,6 +715,12 @@ loop:
 			t.Banner = true
 		}
 		if strings.HasPrefix(l, "Error ") {
+			if !t.ErrorLine {
+				t.ErrorText = l
+				if i := strings.Index(l, ": "); i >= 0 {
+					t.ErrorText = l[:i]
+				}
+			}
 			t.ErrorLine = true
 		}
 		if strings.HasPrefix(l, ">> [") {
@@ -773,15 +780,56 @@ func (t *Transcript) Canonical() string {
 	var seq []string
 	for _, m := range t.Messages {
 		if m.Dir == "ul" {
-			seq = append(seq, ShortName(m.Ngap))
+			seq = append(seq, ShortName(m.Ngap)+ShortNas(m.Nas))
 		}
 	}
 	s := "-"
 	if len(seq) > 0 {
 		s = strings.Join(seq, ",")
 	}
-	return fmt.Sprintf("exit=%s %s banner=%d err=%d tests=%d dl=%d ul=%d after_fault_ul=%d seq=%s",
-		ex, bucket, b2i(t.Banner), b2i(t.ErrorLine), t.Tests, t.DL, t.UL, t.AfterFaultUL, s)
+	errText := "-"
+	if t.ErrorLine {
+		errText = strings.ReplaceAll(t.ErrorText, " ", "_")
+	}
+	tests := strconv.Itoa(t.Tests)
+	if t.Fault.Kind == FaultCloseUL {
+		// how many test headers are printed before the program notices the close depends on whether its next write
+		// (10 ms later inside ReleasePDU) races the peer's close; not compared
+		tests = "*"
+	}
+	return fmt.Sprintf("exit=%s %s banner=%d err=%s tests=%s dl=%d ul=%d after_fault_ul=%d seq=%s",
+		ex, bucket, b2i(t.Banner), errText, tests, t.DL, t.UL, t.AfterFaultUL, s)
+}
+
+// ShortNas abbreviates the NAS message carried by an uplink message ("" when there is none).
+func ShortNas(n string) string {
+	if n == "" {
+		return ""
+	}
+	if i := strings.LastIndexByte(n, '/'); i >= 0 {
+		n = n[i+1:]
+	}
+	switch n {
+	case "RegistrationRequest":
+		return "/RR"
+	case "AuthenticationResponse":
+		return "/AR"
+	case "SecurityModeComplete":
+		return "/SMC"
+	case "RegistrationComplete":
+		return "/RC"
+	case "PDUSessionEstablishmentRequest":
+		return "/ER"
+	case "ServiceRequest":
+		return "/SR"
+	case "PDUSessionReleaseRequest":
+		return "/RQ"
+	case "PDUSessionReleaseComplete":
+		return "/RX"
+	case "DeregistrationRequest":
+		return "/DR"
+	}
+	return "/?" + n
 }
 
 // ShortName abbreviates the NGAP message names used in the canonical uplink sequence.
